@@ -3,6 +3,7 @@ CONSTANTS
   MaxIterChoices = {0, 1, 3}
 INVARIANTS
   TypeOK
+  IndInv
   OkMeansConverged
   NotConvergedIsHonest
   CascadeOrder
